@@ -170,7 +170,7 @@ def handle (j : Json) : Except String Verdict := do
               if sig == "" || sig.startsWith "hist/build/decoded" then
                 sig := s!"hist/C10/{if !rowsOk then "unrepresentable-row-accepted" else if !colsOk then "batch-content" else "differs-from-oneshot"}/build{if nbuilt == 0 then "0" else "N"}/rows{if st.batch.isEmpty then "0" else "+"}"
                 why := s!"build #{nbuilt} (op #{i}) with {st.batch.length} rows: rowsOk={rowsOk} colsOk={colsOk} sameAsOneshot={sameAsOneshot}"
-          -- C10, row-count level (`Props.C10.batches`, no hypothesis on the records since repo fix bcc3416): also a batch
+          -- C10, row-count level (`Props.C10.batches`, no hypothesis on the records since repo fix eafdf15): also a batch
           -- with malformed key/value call streams holds exactly as many rows as were added, in every column
           if malformed && !fsb0 then
             let lensOk := idec.length == fields.length && idec.all (fun slots => slots.length == st.batch.length)
